@@ -53,12 +53,17 @@ func (fr *Frame) call(in ssa.Instruction, c *ssa.CallCommon, st *State, pc Term)
 			if len(res) == 1 {
 				vars["result"] = TV{res[0], sig.Results().At(0).Type()}
 			}
-			g, err := env.with(vars).evalBool(cs.Clause.E)
-			if err != nil {
+			// argN: the arguments the call was made with (0 = receiver)
+			for i, a := range fr.lastArgs {
+				vars[fmt.Sprintf("arg%d", i)] = TV{a, fr.lastArgTypes[i]}
+			}
+			if _, err := env.with(vars).evalBool(cs.Clause.E); err != nil {
 				fr.vc.specError(cs.Clause, err)
 				continue
 			}
-			fr.vc.assume(pc, g)
+			// assumed like a callee postcondition: universally quantified
+			// conjuncts are recorded for instantiation
+			fr.vc.assumeClause(pc, env.with(vars), cs.Clause)
 			fr.vc.assumes["assumed after call "+cs.Callee+" in "+fr.vc.fname+": "+cs.Clause.Src] = true
 		}
 	}
@@ -197,6 +202,7 @@ func (fr *Frame) callInner(in ssa.Instruction, c *ssa.CallCommon, st *State, pc 
 	ord := fr.callOrd[calleeName]
 	site := fmt.Sprintf("%s#%d", shortCallee(calleeName), ord)
 	fr.lastCallee, fr.lastOrd = calleeName, ord
+	fr.lastArgs, fr.lastArgTypes = args, argTypes
 	// call-site assertions of the enclosing contract
 	if fr.top && fr.contract != nil {
 		for _, cs := range fr.contract.CallSites {
@@ -1077,6 +1083,9 @@ func (fr *Frame) next(in *ssa.Next, st *State, pc Term) {
 	// produced keys are all keys of the map has produced exactly its key set
 	qv := "(forall ((qk " + ks + ")) (=> (select " + visited.S + " qk) (select (select " + has.S + " " + m.S + ") qk)))"
 	vc.assume(pc, implies(and(not(okT), not(isNil), Term{qv, SBool}), eq(visited, sel(has, m))))
+	// a map of positive length holds at least one key
+	wk := fr.freshTyped(fr.name(in)+":somekey", mu.Key(), st, pc)
+	vc.assume(pc, implies(and(not(isNil), lt(tZero, sel(ln, m))), sel(sel(has, m), wk)))
 	v := vc.def(fr.name(in)+":v", sel(sel(val, m), k))
 	vc.assume(pc, implies(okT, vc.typeFacts(v, mu.Elem(), st.wm)))
 	st.cells[key] = vc.def("visited", ite(okT, store(visited, k, tTrue), visited))
